@@ -30,24 +30,80 @@ from ..common import MachineryError
 PID = "C04"
 OLD_SIZE = 5000
 
-# name -> (script body, expectation)  expectation: ("ok-new" | "ok-absent" | "fail", job status or None)
-BEHAVIOURS = {
-    "stdout":          ('cat payload.new', ("ok-new", 0)),
-    "file":            ('cat payload.new > "$3"', ("ok-new", 0)),
-    "nothing":         (':', ("ok-absent", 0)),
-    "both":            ('cat payload.new\ncat payload.new > "$3"', ("fail", 207)),
-    "write1":          ('cat payload.new > "$1"', ("fail", 206)),
-    "write1+stdout":   ('cat payload.new > "$1"\ncat payload.new', ("fail", 206)),
-    # direct writes that leave $1 with an OLDER / identical-looking time stamp than before (cp -p, touch -r, tar x)
-    "write1-oldmtime": ('cat payload.new > "$1"\ntouch -d "2001-02-03 04:05:06" "$1"', ("fail", 206)),
-    "write1-oldmtime+stdout": ('cat payload.new > "$1"\ntouch -d "2001-02-03 04:05:06" "$1"\ncat payload.new', ("fail", 206)),
-    "create-delete":   ('cat payload.new > "$3"\nrm -f "$3"', ("ok-absent", 0)),
-    "stdout-exit5":    ('cat payload.new\nexit 5', ("fail", 5)),
-    "file-exit5":      ('cat payload.new > "$3"\nexit 5', ("fail", 5)),
-    "partial-stdout-kill9":  ('head -c %(half)d payload.new\nkill -9 $$\ncat payload.new', ("fail", -9)),
-    "partial-file-killTERM": ('head -c %(half)d payload.new > "$3"\nkill -TERM $$\ncat payload.new > "$3"', ("fail", -15)),
-}
-WRITES_TARGET_ITSELF = ("write1", "write1+stdout", "write1-oldmtime", "write1-oldmtime+stdout")
+# A behaviour is a point of the product  stdout x $3 x $1 x end-of-script:
+#   o: none | data                     what the script writes to stdout
+#   f: none | empty | data | deleted   $3 not touched / created empty / written / written then removed
+#   w: none | new | old                $1 not touched / written directly / written directly and given an OLDER mtime
+#   e: 0 | 5 | kill9 | killTERM        exit status, or a signal in the middle of the output (only half of it written)
+# Expectation (documented rules): the faults present are {206 if $1 was written, 207 if stdout is non-empty and $3
+# exists, the script's own status / signal}; if there is any fault the command fails with one of those statuses and
+# the target stays as it was; otherwise the target becomes $3 (even when empty) if $3 exists, else stdout if
+# non-empty, else it is removed.
+O_, F_, W_, E_ = ("none", "data"), ("none", "empty", "data", "deleted"), ("none", "new", "old"), ("0", "5", "kill9", "killTERM")
+
+
+def behaviour_name(o, f, w, e):
+    return "o=%s,f=%s,w=%s,e=%s" % (o, f, w, e)
+
+
+def make_behaviour(o, f, w, e):
+    """-> (script body, (expect, statuses, new-bytes-kind))"""
+    part = e.startswith("kill")
+    src = 'head -c %(half)d payload.new' if part else 'cat payload.new'
+    L = []
+    if o == "data":
+        L.append(src)
+    if f == "empty":
+        L.append(': > "$3"')
+    elif f == "data":
+        L.append(src + ' > "$3"')
+    elif f == "deleted":
+        L.append(src + ' > "$3"')
+        L.append('rm -f "$3"')
+    if w != "none":
+        L.append(src + ' > "$1"')
+        if w == "old":
+            L.append('touch -d "2001-02-03 04:05:06" "$1"')
+    if e == "5":
+        L.append("exit 5")
+    elif e == "kill9":
+        L.append("kill -9 $$")
+        L.append("cat payload.new")
+    elif e == "killTERM":
+        L.append("kill -TERM $$")
+        L.append("cat payload.new")
+    if not L:
+        L.append(":")
+    faults = set()
+    if w != "none":
+        faults.add(206)
+    if o == "data" and f in ("empty", "data"):
+        faults.add(207)
+    if e == "5":
+        faults.add(5)
+    elif e == "kill9":
+        faults.add(-9)
+    elif e == "killTERM":
+        faults.add(-15)
+    if faults:
+        return "\n".join(L), ("fail", sorted(faults), None)
+    if f == "empty":
+        return "\n".join(L), ("ok-new", [0], "empty")
+    if f == "data" or o == "data":
+        return "\n".join(L), ("ok-new", [0], "new")
+    return "\n".join(L), ("ok-absent", [0], None)
+
+
+BEHAVIOURS = {behaviour_name(o, f, w, e): make_behaviour(o, f, w, e) for o in O_ for f in F_ for w in W_ for e in E_}
+
+
+def writes_target_itself(b):
+    return ",w=none," not in b
+
+
+def has_output(b):
+    return "o=data" in b or "f=data" in b or "f=deleted" in b or ",w=new" in b or ",w=old" in b
+
 
 _W = {}
 
@@ -66,8 +122,10 @@ def programs(tier):
     sizes = (1, 70000) if tier == "quick" else (1, 4096, 70000)
     out = []
     for b in BEHAVIOURS:
+        if tier == "quick" and "e=killTERM" in b:
+            continue      # quick: one signal (SIGKILL); thorough: also SIGTERM
         for prior in ("absent", "generated"):
-            for size in (sizes if b != "nothing" else sizes[:1]):   # "nothing" has no output: one size only
+            for size in (sizes if has_output(b) else sizes[:1]):   # behaviours without payload output: one size only
                 out.append({"behaviour": b, "size": size, "prior": prior})
     return out
 
@@ -88,7 +146,7 @@ def _state(path: Path, old: bytes, new: bytes):
 
 def run_program(prog):
     b, size, prior = prog["behaviour"], prog["size"], prog["prior"]
-    body, (expect, status) = BEHAVIOURS[b]
+    body, (expect, statuses, newkind) = BEHAVIOURS[b]
     root = _W["root"] / f"p_{os.getpid()}_{time.monotonic_ns()}"
     p = root / "p"
     home = root / "home"
@@ -99,6 +157,8 @@ def run_program(prog):
     try:
         new, old = pattern(size, "n"), pattern(OLD_SIZE, "o")
         (p / "payload.new").write_bytes(new)
+        if newkind == "empty":
+            new = b""          # the script leaves an empty $3: that is the complete new target
         (p / "payload.old").write_bytes(old)
         env = common.base_env(_W["bindir"], home)
         target = p / "t"
@@ -129,7 +189,7 @@ def run_program(prog):
         res["stderr"] = r["err"][-800:]
         res["final"] = final
         V = res["violations"]
-        judged_bytes = b not in WRITES_TARGET_ITSELF
+        judged_bytes = not writes_target_itself(b)
         want_final = {"ok-new": "new", "ok-absent": "absent", "fail": prior_state}[expect]
         # ---- every instant -----------------------------------------------------------------------
         if judged_bytes:
@@ -152,8 +212,8 @@ def run_program(prog):
         if expect == "fail":
             if r["rc"] == 0:
                 V.append(("exit-0-on-failure", "-", None, r["err"][-200:]))
-            elif [int(x) for x in m] != [status]:
-                V.append(("wrong-job-status", "-", None, f"want (exit {status}), stderr reports {m}"))
+            elif len(m) != 1 or int(m[0]) not in statuses:
+                V.append(("wrong-job-status", "-", None, f"want (exit N) with N in {statuses}, stderr reports {m}"))
         else:
             if r["rc"] != 0:
                 V.append(("nonzero-exit-on-success", "-", None, f"rc={r['rc']} {r['err'][-200:]}"))
@@ -225,8 +285,8 @@ def main(tier):
                            {"engine": "E3-observe", "program": pr, "detail": detail, "rc": r["rc"], "stderr": r["stderr"],
                             "final": r["final"], "redo_mutations_of_target": r["redo_mutations_of_target"],
                             "target_states_run_length": _rle(r["observations"])})
-    for want in (("stdout", 70000, "generated"), ("partial-stdout-kill9", 70000, "generated"), ("nothing", 1, "generated"),
-                 ("both", 70000, "absent")):
+    for want in (("o=data,f=none,w=none,e=0", 70000, "generated"), ("o=data,f=none,w=none,e=kill9", 70000, "generated"),
+                 ("o=none,f=none,w=none,e=0", 1, "generated"), ("o=data,f=empty,w=none,e=0", 70000, "absent")):
         for r in results:
             pr = r["program"]
             if (pr["behaviour"], pr["size"], pr["prior"]) == want:
@@ -237,8 +297,10 @@ def main(tier):
     cov = {
         "evaluations": evaluations,
         "distinct_nontrivial": len(nontrivial),
-        "rule": "programs = 11 script behaviours x output sizes x prior target state {absent, generated earlier with "
-                "different bytes} ('nothing' once per prior); evaluations = observation points = callbacks before every "
+        "rule": "programs = script behaviours (the full product stdout {none, data} x $3 {untouched, created empty, written, "
+                "written then removed} x $1 {untouched, written directly, written directly with an older mtime} x end {exit 0, "
+                "exit 5, SIGKILL in mid-output; thorough also SIGTERM}) x output sizes x prior target state {absent, generated "
+                "earlier with different bytes} (behaviours without payload output once per prior); evaluations = observation points = callbacks before every "
                 "state-changing libc call of every redo process, plus one final observation per program; at each the "
                 "target is read and judged. distinct_nontrivial = distinct (behaviour, size, prior, process role, call, "
                 "path class, observed target state) tuples among the observation points whose call touches the target, "
